@@ -117,6 +117,9 @@ func (s StructSpec) Build() reflect.Type {
 func Values(t reflect.Type, depth int) []reflect.Value {
 	zero := reflect.Zero(t)
 	out := []reflect.Value{zero}
+	if depth > 6 {
+		return out // self-referential container types (type M map[string]M)
+	}
 	add := func(v interface{}) { out = append(out, reflect.ValueOf(v).Convert(t)) }
 	switch t.Kind() {
 	case reflect.Bool:
